@@ -15,7 +15,7 @@ from typing import Dict, List, Optional, Set, Tuple
 from sa.cfg import CFG, forward, witness_path
 from sa.model import AnalysisError, Function, Repo, calls_in, dotted, norm, own_nodes
 from sa.match import Locals, match
-from sa.report import Report
+from sa.report import Report, with_flatten_fallback
 from sa.resolve import CallGraph
 
 ENTER = "unified_enter_schema"
@@ -258,8 +258,10 @@ def run(repo: Repo, rep: Report, tier: str) -> None:
                 continue
             n_writes += 1
             sub = f"{fn.module.relpath}:{fn.qualname} writes {tgt_attr}"
-            if fn.fq in allowed_writers:
-                rep.ok("R8.2", sub, f"allowed writer: {allowed_writers[fn.fq]}", fn.loc(what))
+            # ownership is by unit: the tracker module and the ParsingContext class own the state (their private helpers included)
+            owner_unit = fn.module.name.endswith(UCD) or (fn.cls is not None and fn.cls.name == "ParsingContext" and fn.module.name.endswith(CTX))
+            if fn.fq in allowed_writers or owner_unit:
+                rep.ok("R8.2", sub, f"allowed writer: {allowed_writers.get(fn.fq, 'part of the tracker module / ParsingContext')}", fn.loc(what))
             elif fn is gate and tgt_attr in ("schema_states", "schema_stack") and "schema_name" in norm(what):
                 rep.ok("R8.2", sub, "re-parse branch of the gate, keyed by its own name argument (depth is covered by R8.1)", fn.loc(what))
             else:
@@ -300,165 +302,193 @@ def run(repo: Repo, rep: Report, tier: str) -> None:
     rep.count("R8.3:recursive_components", n_cyc)
     rep.require(n_cyc >= 1, "R8.3: no recursion found at all in the parser (resolution broken?)")
 
-    # ---------------------------------------------------------------- R8.4 the gate bounds depth
     ucd = repo.module(UCD)
-    enter = ucd.func(ENTER)
-    cfg = CFG(enter.node)
-    inc = [n.id for n in cfg.nodes if n.kind == "stmt" and n.ast is not None and match("ANY_c.recursion_depth += 1", n.ast) is not None]
-    chk = [n.id for n in cfg.nodes if n.ast is not None and n.kind == "stmt" and
-           any(_callee_attr(c) == "unified_cycle_check" for c in calls_in(n.ast))]
-    dom = cfg.dominators()
-    if inc and chk and all(any(i in dom[c] for i in inc) for c in chk):
-        rep.ok("R8.4", f"{ucd.relpath}:{ENTER} increment-before-check", "recursion_depth += 1 dominates the call of unified_cycle_check", enter.loc())
-    else:
-        rep.violation("R8.4", f"{ucd.relpath}:{ENTER} increment-before-check", f"{enter.fq}|increment-before-check",
-                      "the depth increment does not dominate the cycle/depth check: the limit is never reached or is off", enter.loc())
-    # push only when continuing
-    push = [n for n in cfg.nodes if n.ast is not None and n.kind == "stmt" and any(
-        isinstance(c.func, ast.Attribute) and c.func.attr == "append" and isinstance(c.func.value, ast.Attribute)
-        and c.func.value.attr == "schema_stack" for c in calls_in(n.ast))]
-    okp = bool(push)
-    for p in push:
-        guards = [cfg.nodes[d] for d in dom[p.id] if cfg.nodes[d].kind == "test"]
-        if not any("CONTINUE_PARSING" in norm(g.ast) for g in guards):
-            okp = False
-    if okp:
-        rep.ok("R8.4", f"{ucd.relpath}:{ENTER} push-only-on-continue", "schema_stack.append is guarded by action == CONTINUE_PARSING", enter.loc())
-    else:
-        rep.violation("R8.4", f"{ucd.relpath}:{ENTER} push-only-on-continue", f"{enter.fq}|push-guard",
-                      "schema_stack push is not guarded by CONTINUE_PARSING (placeholders would be left on the stack)", enter.loc())
-
-    check = ucd.func("unified_cycle_check")
-    cfg = CFG(check.node)
-    dom = cfg.dominators()
-    def _depth_limit(t: ast.AST) -> Optional[ast.AST]:
-        """`<ctx>.recursion_depth > L`, `>= L`, `L < <ctx>.recursion_depth`, `L <= ...` -> L"""
-        for pt in ("ANY_c.recursion_depth > ANY_l", "ANY_c.recursion_depth >= ANY_l"):
-            m = match(pt, t)
-            if m is not None and not any(isinstance(x, ast.Attribute) and x.attr == "recursion_depth" for x in ast.walk(m["ANY_l"])):
-                return m["ANY_l"]
-        return None
-
-    depth_tests = [n for n in cfg.nodes if n.kind == "test" and _depth_limit(n.ast) is not None]
-    rets_continue = [n for n in cfg.nodes if isinstance(n.ast, ast.Return) and "CONTINUE_PARSING" in norm(n.ast)]
-    rep.count("R8.4:continue_returns", len(rets_continue))
-    rep.require(len(rets_continue) >= 1, "R8.4: unified_cycle_check has no CONTINUE_PARSING return (anchor vanished)")
-    if not depth_tests:
-        rep.violation("R8.4", f"{ucd.relpath}:unified_cycle_check depth test", f"{check.fq}|no-depth-test",
-                      "no `recursion_depth > limit` test: recursion depth is unbounded", check.loc())
-    else:
-        T = depth_tests[0]
-        # true branch never continues parsing
-        true_succ = [m for m, lab in cfg.succ[T.id] if lab == "true"]
-        reach_true: Set[int] = set()
-        for m in true_succ:
-            reach_true |= cfg.reachable(m)
-        bad = [r for r in rets_continue if r.id in reach_true]
-        if bad:
-            rep.violation("R8.4", f"{ucd.relpath}:unified_cycle_check depth-exceeded branch", f"{check.fq}|depth-branch-continues",
-                          "the depth-exceeded branch can return CONTINUE_PARSING", check.loc(bad[0].ast))
-        else:
-            rep.ok("R8.4", f"{ucd.relpath}:unified_cycle_check depth-exceeded branch", "the `recursion_depth > max_depth` branch returns a placeholder action on every path", check.loc(T.ast))
-        for r in rets_continue:
-            guards = [cfg.nodes[d] for d in dom[r.id] if cfg.nodes[d].kind == "test"]
-            CL = Locals(check.node)
-            anon = any((m := match("VAR_p is None", g.ast)) is not None and CL.is_param(m["VAR_p"]) for g in guards) and T.id not in dom[r.id]
-            sub = f"{ucd.relpath}:unified_cycle_check return L{r.lineno}"
-            if T.id in dom[r.id]:
-                rep.ok("R8.4", sub, "depth test dominates this CONTINUE_PARSING return", check.loc(r.ast))
-            elif anon:
-                rep.ok("R8.4", sub, "anonymous schema (name is None): bounded by document nesting, not by references (enumerated exception)", check.loc(r.ast))
-            else:
-                rep.violation("R8.4", sub, f"{check.fq}|continue-without-depth-test",
-                              "a CONTINUE_PARSING return is reachable without passing the depth test", check.loc(r.ast))
-        # the limit compared against must come from max_depth / PYOPENAPI_MAX_DEPTH
-        lim = Locals(check.node).inline(_depth_limit(T.ast))  # type: ignore[arg-type]
-        from_config = any(isinstance(x, ast.Attribute) and x.attr == "max_depth" for x in ast.walk(lim)) or any(
-            isinstance(x, ast.Constant) and x.value == "PYOPENAPI_MAX_DEPTH" for x in ast.walk(lim))
-        if from_config:
-            rep.ok("R8.4", f"{ucd.relpath}:unified_cycle_check limit source", "compared against max_depth (env PYOPENAPI_MAX_DEPTH / context.max_depth)", check.loc(T.ast))
-        else:
-            rep.violation("R8.4", f"{ucd.relpath}:unified_cycle_check limit source", f"{check.fq}|limit-source",
-                          "depth is not compared against the configured max_depth", check.loc(T.ast))
-
-    # ---------------------------------------------------------------- R8.5 exit restores state
-    ex = ucd.func(EXIT)
-    cfg = CFG(ex.node)
-    dec = {n.id for n in cfg.nodes if n.kind == "stmt" and n.ast is not None and match("ANY_c.recursion_depth -= 1", n.ast) is not None}
-    # allowed bypass: the false edge of a test on recursion_depth itself (already 0)
-    bypass_tests = {n.id for n in cfg.nodes if n.kind == "test" and "recursion_depth" in norm(n.ast)}
-    saved = {t: list(cfg.succ[t]) for t in bypass_tests}
-    for t in bypass_tests:
-        cfg.succ[t] = [(m, lab) for m, lab in cfg.succ[t] if lab != "false"]
-    p = cfg.must_pass(cfg.entry, dec)
-    for t in bypass_tests:
-        cfg.succ[t] = saved[t]
-    if dec and p is None:
-        rep.ok("R8.5", f"{ucd.relpath}:{EXIT} decrement", "recursion_depth -= 1 on every path (only bypass: depth already 0)", ex.loc())
-    else:
-        rep.violation("R8.5", f"{ucd.relpath}:{EXIT} decrement", f"{ex.fq}|decrement",
-                      f"a path through exit does not decrement recursion_depth: {cfg.describe_path(p or [])}", ex.loc())
-    rem = [n for n in cfg.nodes if n.ast is not None and n.kind == "stmt" and any(
-        isinstance(c.func, ast.Attribute) and c.func.attr in ("remove", "pop") and isinstance(c.func.value, ast.Attribute)
-        and c.func.value.attr == "schema_stack" for c in calls_in(n.ast))]
-    if rem:
-        rep.ok("R8.5", f"{ucd.relpath}:{EXIT} stack removal", "the name is removed from schema_stack", ex.loc(rem[0].ast))
-    else:
-        rep.violation("R8.5", f"{ucd.relpath}:{EXIT} stack removal", f"{ex.fq}|stack-removal",
-                      "exit does not remove the name from schema_stack: later references are reported as cycles", ex.loc())
-    comp = [n for n in cfg.nodes if isinstance(n.ast, ast.Assign) and "schema_states" in norm(n.ast.targets[0]) and "COMPLETED" in norm(n.ast.value)]
-    guarded = False
-    if comp:
+    def _r84_enter(enter: Function, rep) -> None:
+        # ---------------------------------------------------------------- R8.4 the gate bounds depth
+        cfg = CFG(enter.node)
+        inc = [n.id for n in cfg.nodes if n.kind == "stmt" and n.ast is not None and match("ANY_c.recursion_depth += 1", n.ast) is not None]
+        chk = [n.id for n in cfg.nodes if n.ast is not None and n.kind == "stmt" and
+               any(_callee_attr(c) == "unified_cycle_check" for c in calls_in(n.ast))]
         dom = cfg.dominators()
-        guards = [cfg.nodes[d] for d in dom[comp[0].id] if cfg.nodes[d].kind == "test"]
-        guarded = any("IN_PROGRESS" in norm(g.ast) for g in guards)
-    # ... and on nothing else: in particular not on the name still being on the stack (a re-parse marks the schema IN_PROGRESS without
-    # pushing it; its exit must still complete it)
-    extra_guard = None
-    if comp:
-        from sa.cfg import guards as _guards
+        if inc and chk and all(any(i in dom[c] for i in inc) for c in chk):
+            rep.ok("R8.4", f"{ucd.relpath}:{ENTER} increment-before-check", "recursion_depth += 1 dominates the call of unified_cycle_check", enter.loc())
+        else:
+            rep.violation("R8.4", f"{ucd.relpath}:{ENTER} increment-before-check", f"{enter.fq}|increment-before-check",
+                          "the depth increment does not dominate the cycle/depth check: the limit is never reached or is off", enter.loc())
+        # push only when continuing
+        push = [n for n in cfg.nodes if n.ast is not None and n.kind == "stmt" and any(
+            isinstance(c.func, ast.Attribute) and c.func.attr == "append" and isinstance(c.func.value, ast.Attribute)
+            and c.func.value.attr == "schema_stack" for c in calls_in(n.ast))]
+        okp = bool(push)
+        for p in push:
+            guards = [cfg.nodes[d] for d in dom[p.id] if cfg.nodes[d].kind == "test"]
+            if not any("CONTINUE_PARSING" in norm(Locals(enter.node).inline(g.ast)) for g in guards):
+                okp = False
+        if okp:
+            rep.ok("R8.4", f"{ucd.relpath}:{ENTER} push-only-on-continue", "schema_stack.append is guarded by action == CONTINUE_PARSING", enter.loc())
+        else:
+            rep.violation("R8.4", f"{ucd.relpath}:{ENTER} push-only-on-continue", f"{enter.fq}|push-guard",
+                          "schema_stack push is not guarded by CONTINUE_PARSING (placeholders would be left on the stack)", enter.loc())
 
-        for g, pol in _guards(cfg, comp[0].id, dom):
-            if g.kind == "test" and pol is not None and any(isinstance(x, ast.Attribute) and x.attr in ("schema_stack", "recursion_depth") for x in ast.walk(g.ast)):
-                extra_guard = g
-    if comp and guarded and extra_guard is not None:
-        rep.violation("R8.5", f"{ucd.relpath}:{EXIT} terminal state", f"{ex.fq}|terminal-state-conditional",
-                      f"IN_PROGRESS -> COMPLETED happens only when `{norm(extra_guard.ast)[:60]}` allows it: a schema that was re-entered without a stack frame "
-                      "stays IN_PROGRESS for ever (non-terminal state, later references look like cycles)", ex.loc(extra_guard.ast))
-    elif comp and guarded:
-        rep.ok("R8.5", f"{ucd.relpath}:{EXIT} terminal state", "IN_PROGRESS -> COMPLETED on exit (placeholder states untouched)", ex.loc(comp[0].ast))
-    else:
-        rep.violation("R8.5", f"{ucd.relpath}:{EXIT} terminal state", f"{ex.fq}|terminal-state",
-                      "exit does not move IN_PROGRESS to COMPLETED: schemas stay non-terminal / re-entrant refs look like cycles", ex.loc())
+
+    with_flatten_fallback(rep, ucd.func(ENTER), _r84_enter)
+
+    def _r84_check(check: Function, rep) -> None:
+        cfg = CFG(check.node)
+        dom = cfg.dominators()
+        def _depth_limit(t: ast.AST) -> Optional[ast.AST]:
+            """`<ctx>.recursion_depth > L`, `>= L`, `L < <ctx>.recursion_depth`, `L <= ...` -> L"""
+            for pt in ("ANY_c.recursion_depth > ANY_l", "ANY_c.recursion_depth >= ANY_l", "ANY_c.recursion_depth <= ANY_l", "ANY_c.recursion_depth < ANY_l"):
+                m = match(pt, t)
+                if m is not None and not any(isinstance(x, ast.Attribute) and x.attr == "recursion_depth" for x in ast.walk(m["ANY_l"])):
+                    return m["ANY_l"]
+            return None
+
+        def _exceeded_label(t: ast.AST) -> str:
+            """the branch of the depth test on which the limit is exceeded"""
+            return "true" if (match("ANY_c.recursion_depth > ANY_l", t) is not None or match("ANY_c.recursion_depth >= ANY_l", t) is not None) else "false"
+
+        depth_tests = [n for n in cfg.nodes if n.kind == "test" and _depth_limit(n.ast) is not None]
+        rets_continue = [n for n in cfg.nodes if isinstance(n.ast, ast.Return) and "CONTINUE_PARSING" in norm(n.ast)]
+        rep.count("R8.4:continue_returns", len(rets_continue))
+        rep.require(len(rets_continue) >= 1, "R8.4: unified_cycle_check has no CONTINUE_PARSING return (anchor vanished)")
+        if not depth_tests:
+            rep.violation("R8.4", f"{ucd.relpath}:unified_cycle_check depth test", f"{check.fq}|no-depth-test",
+                          "no `recursion_depth > limit` test: recursion depth is unbounded", check.loc())
+        else:
+            T = depth_tests[0]
+            # true branch never continues parsing
+            true_succ = [m for m, lab in cfg.succ[T.id] if lab == _exceeded_label(T.ast)]
+            reach_true: Set[int] = set()
+            for m in true_succ:
+                reach_true |= cfg.reachable(m)
+            bad = [r for r in rets_continue if r.id in reach_true]
+            if bad:
+                rep.violation("R8.4", f"{ucd.relpath}:unified_cycle_check depth-exceeded branch", f"{check.fq}|depth-branch-continues",
+                              "the depth-exceeded branch can return CONTINUE_PARSING", check.loc(bad[0].ast))
+            else:
+                rep.ok("R8.4", f"{ucd.relpath}:unified_cycle_check depth-exceeded branch", "the `recursion_depth > max_depth` branch returns a placeholder action on every path", check.loc(T.ast))
+            for r in rets_continue:
+                guards = [cfg.nodes[d] for d in dom[r.id] if cfg.nodes[d].kind == "test"]
+                CL = Locals(check.node)
+                anon = any((m := match("VAR_p is None", g.ast)) is not None and CL.is_param(m["VAR_p"]) for g in guards) and T.id not in dom[r.id]
+                sub = f"{ucd.relpath}:unified_cycle_check return L{r.lineno}"
+                if T.id in dom[r.id]:
+                    rep.ok("R8.4", sub, "depth test dominates this CONTINUE_PARSING return", check.loc(r.ast))
+                elif anon:
+                    rep.ok("R8.4", sub, "anonymous schema (name is None): bounded by document nesting, not by references (enumerated exception)", check.loc(r.ast))
+                else:
+                    rep.violation("R8.4", sub, f"{check.fq}|continue-without-depth-test",
+                                  "a CONTINUE_PARSING return is reachable without passing the depth test", check.loc(r.ast))
+            # the limit compared against must come from max_depth / PYOPENAPI_MAX_DEPTH
+            lim = Locals(check.node).inline(_depth_limit(T.ast))  # type: ignore[arg-type]
+            from_config = any(isinstance(x, ast.Attribute) and x.attr == "max_depth" for x in ast.walk(lim)) or any(
+                isinstance(x, ast.Constant) and x.value == "PYOPENAPI_MAX_DEPTH" for x in ast.walk(lim))
+            if from_config:
+                rep.ok("R8.4", f"{ucd.relpath}:unified_cycle_check limit source", "compared against max_depth (env PYOPENAPI_MAX_DEPTH / context.max_depth)", check.loc(T.ast))
+            else:
+                rep.violation("R8.4", f"{ucd.relpath}:unified_cycle_check limit source", f"{check.fq}|limit-source",
+                              "depth is not compared against the configured max_depth", check.loc(T.ast))
+
+
+    with_flatten_fallback(rep, ucd.func("unified_cycle_check"), _r84_check)
+
+    def _r85(ex: Function, rep) -> None:
+        # ---------------------------------------------------------------- R8.5 exit restores state
+        cfg = CFG(ex.node)
+        dec = {n.id for n in cfg.nodes if n.kind == "stmt" and n.ast is not None and match("ANY_c.recursion_depth -= 1", n.ast) is not None}
+        # allowed bypass: the false edge of a test on recursion_depth itself (already 0)
+        bypass_tests = {n.id for n in cfg.nodes if n.kind == "test" and "recursion_depth" in norm(n.ast)}
+        saved = {t: list(cfg.succ[t]) for t in bypass_tests}
+        for t in bypass_tests:
+            cfg.succ[t] = [(m, lab) for m, lab in cfg.succ[t] if lab != "false"]
+        p = cfg.must_pass(cfg.entry, dec)
+        for t in bypass_tests:
+            cfg.succ[t] = saved[t]
+        if dec and p is None:
+            rep.ok("R8.5", f"{ucd.relpath}:{EXIT} decrement", "recursion_depth -= 1 on every path (only bypass: depth already 0)", ex.loc())
+        else:
+            rep.violation("R8.5", f"{ucd.relpath}:{EXIT} decrement", f"{ex.fq}|decrement",
+                          f"a path through exit does not decrement recursion_depth: {cfg.describe_path(p or [])}", ex.loc())
+        rem = [n for n in cfg.nodes if n.ast is not None and n.kind == "stmt" and any(
+            isinstance(c.func, ast.Attribute) and c.func.attr in ("remove", "pop") and isinstance(c.func.value, ast.Attribute)
+            and c.func.value.attr == "schema_stack" for c in calls_in(n.ast))]
+        if rem:
+            rep.ok("R8.5", f"{ucd.relpath}:{EXIT} stack removal", "the name is removed from schema_stack", ex.loc(rem[0].ast))
+        else:
+            rep.violation("R8.5", f"{ucd.relpath}:{EXIT} stack removal", f"{ex.fq}|stack-removal",
+                          "exit does not remove the name from schema_stack: later references are reported as cycles", ex.loc())
+        comp = [n for n in cfg.nodes if isinstance(n.ast, ast.Assign) and "schema_states" in norm(n.ast.targets[0]) and "COMPLETED" in norm(n.ast.value)]
+        guarded = False
+        if comp:
+            dom = cfg.dominators()
+            guards = [cfg.nodes[d] for d in dom[comp[0].id] if cfg.nodes[d].kind == "test"]
+            guarded = any("IN_PROGRESS" in norm(g.ast) for g in guards)
+        # ... and on nothing else: in particular not on the name still being on the stack (a re-parse marks the schema IN_PROGRESS without
+        # pushing it; its exit must still complete it)
+        extra_guard = None
+        if comp:
+            from sa.cfg import guards as _guards
+
+            for g, pol in _guards(cfg, comp[0].id, dom):
+                if g.kind == "test" and pol is not None and any(isinstance(x, ast.Attribute) and x.attr in ("schema_stack", "recursion_depth") for x in ast.walk(g.ast)):
+                    extra_guard = g
+        if comp and guarded and extra_guard is not None:
+            rep.violation("R8.5", f"{ucd.relpath}:{EXIT} terminal state", f"{ex.fq}|terminal-state-conditional",
+                          f"IN_PROGRESS -> COMPLETED happens only when `{norm(extra_guard.ast)[:60]}` allows it: a schema that was re-entered without a stack frame "
+                          "stays IN_PROGRESS for ever (non-terminal state, later references look like cycles)", ex.loc(extra_guard.ast))
+        elif comp and guarded:
+            rep.ok("R8.5", f"{ucd.relpath}:{EXIT} terminal state", "IN_PROGRESS -> COMPLETED on exit (placeholder states untouched)", ex.loc(comp[0].ast))
+        else:
+            rep.violation("R8.5", f"{ucd.relpath}:{EXIT} terminal state", f"{ex.fq}|terminal-state",
+                          "exit does not move IN_PROGRESS to COMPLETED: schemas stay non-terminal / re-entrant refs look like cycles", ex.loc())
+
+
+    with_flatten_fallback(rep, ucd.func(EXIT), _r85)
 
     _registration_rules(repo, rep)
 
-    # ---------------------------------------------------------------- R8.6 post-condition
-    bs = repo.func("core.loader.schemas.extractor:build_schemas")
-    cfg = CFG(bs.node)
-    parse_nodes = {n.id for n in cfg.nodes if n.ast is not None and n.kind == "stmt" and any(_callee_attr(c) == "_parse_schema" for c in calls_in(n.ast))}
-    raise_nodes = []
-    for n in cfg.nodes:
-        if isinstance(n.ast, ast.Raise):
-            dom = cfg.dominators() if not raise_nodes else dom
-            guards = [cfg.nodes[d] for d in dom[n.id] if cfg.nodes[d].kind in ("test", "iter")]
-            if any(g.kind == "test" and any(isinstance(x, ast.Compare) and isinstance(x.ops[0], (ast.In, ast.NotIn)) and any(
-                    isinstance(y, ast.Attribute) and y.attr == "parsed_schemas" for y in ast.walk(x.comparators[0])) for x in ast.walk(g.ast)) for g in guards) and any(
-                g.kind == "iter" for g in guards):
-                raise_nodes.append(n)
-    rep.require(bool(parse_nodes), "R8.6: build_schemas no longer calls _parse_schema (anchor vanished)")
-    ok6 = False
-    if raise_nodes:
-        # the checking loop's header post-dominates the parse loop: every path from a parse call to the exit visits it
+    def _r86(bs: Function, rep) -> None:
+        # ---------------------------------------------------------------- R8.6 post-condition
+        cfg = CFG(bs.node)
+        parse_nodes = {n.id for n in cfg.nodes if n.ast is not None and n.kind == "stmt" and any(_callee_attr(c) == "_parse_schema" for c in calls_in(n.ast))}
+        BL = Locals(bs.node)
         dom = cfg.dominators()
-        hdrs = {d for d in dom[raise_nodes[0].id] if cfg.nodes[d].kind == "iter"}
-        ok6 = all(cfg.must_pass(pn, hdrs) is None for pn in parse_nodes) and cfg.must_pass(cfg.entry, hdrs) is None
-    if ok6:
-        rep.ok("R8.6", f"{bs.module.relpath}:build_schemas post-condition", "every path to the return runs the `not in parsed_schemas -> raise` loop over raw_schemas", bs.loc(raise_nodes[0].ast))
-    else:
-        rep.violation("R8.6", f"{bs.module.relpath}:build_schemas post-condition", f"{bs.fq}|postcondition",
-                      "build_schemas can return without checking that every declared schema name was registered", bs.loc())
 
+        def mentions_membership(e: ast.AST) -> bool:
+            ei = BL.inline(e)
+            return any(isinstance(x, ast.Compare) and isinstance(x.ops[0], (ast.In, ast.NotIn)) and any(
+                isinstance(y, ast.Attribute) and y.attr == "parsed_schemas" for y in ast.walk(x.comparators[0])) for x in ast.walk(ei))
+
+        # the checking test: a test about membership in parsed_schemas (directly, through a temporary, a comprehension or next(...)) one of
+        # whose branches raises
+        raise_nodes = []
+        check_points = set()
+        for n in cfg.nodes:
+            if isinstance(n.ast, ast.Raise) and not n.copy:
+                tests = [cfg.nodes[d] for d in dom[n.id] if cfg.nodes[d].kind == "test"]
+                hit = [t for t in tests if mentions_membership(t.ast)]
+                if hit:
+                    raise_nodes.append(n)
+                    t = hit[-1]
+                    hdr = [d for d in dom[t.id] if cfg.nodes[d].kind == "iter" and t.stmt is not None and any(y is t.stmt for y in ast.walk(cfg.nodes[d].stmt))]
+                    check_points |= set(hdr) if hdr else {t.id}
+        rep.require(bool(parse_nodes), "R8.6: build_schemas no longer calls _parse_schema (anchor vanished)")
+        ok6 = False
+        if raise_nodes:
+            # every path from a parse call (and from the entry) to the exit visits the check
+            parse_loop_hdrs = {d for pn in parse_nodes for d in dom[pn] if cfg.nodes[d].kind == "iter"}
+            pts = check_points - parse_loop_hdrs
+            ok6 = bool(pts) and all(cfg.must_pass(pn, pts) is None for pn in parse_nodes) and cfg.must_pass(cfg.entry, pts) is None
+        if ok6:
+            rep.ok("R8.6", f"{bs.module.relpath}:build_schemas post-condition", "every path to the return runs the `not in parsed_schemas -> raise` loop over raw_schemas", bs.loc(raise_nodes[0].ast))
+        else:
+            rep.violation("R8.6", f"{bs.module.relpath}:build_schemas post-condition", f"{bs.fq}|postcondition",
+                          "build_schemas can return without checking that every declared schema name was registered", bs.loc())
+
+
+
+    with_flatten_fallback(rep, repo.func("core.loader.schemas.extractor:build_schemas"), _r86)
 
 def _registration_rules(repo: Repo, rep: Report) -> None:
     """R8.7: every declared schema ends up registered (rules of C02/R2.6: registration on the way out of _parse_schema, no vetoing flag
